@@ -163,4 +163,233 @@ Proof.
     apply qstep_same; [unfold unset_id; destruct (stack (gp g p)) as [|[[? ?] ?] ?]; cbn; repeat split|intros ? ? []].
 Qed.
 
+(* ---- the invariants ---------------------------------------------------------------------------------- *)
+Hypothesis n_gt_3t : 3 * t < n.
+Hypothesis t_nonneg : 0 <= t.
+Variable B : list Z.
+Hypothesis B_small : Z.of_nat (length B) <= t.
+Hypothesis B_byz : forall l, byz l = true -> In l B.
+
+Definition has_msg (g : gst) (l p : Z) (tg : tagT) (a d : Z) : Prop :=
+  byz l = true \/ exists m, In (l, p, m) (gsent g) /\ mtag m = tg /\ m_act m = a /\ m_pay m = d.
+
+(* c distinct parties l, each with its first-time filter set at the party whose state is st, and each Byzantine or having
+   really sent the counted message to p *)
+Definition clist (g : gst) (st : pst) (p : Z) (k : fkind) (a : Z) (tg : tagT) (d c : Z) : Prop :=
+  exists L, NoDup L /\ Z.of_nat (length L) = c /\
+    forall l, In l L -> 0 <= l < n /\ filt st k l tg = true /\ has_msg g l p tg a d.
+
+Definition count_ok (cnt : pst -> tagT -> Z -> Z) (k : fkind) (a : Z) (g : gst) : Prop :=
+  forall p tg d, clist g (gp g p) p k a tg d (cnt (gp g p) tg d).
+
+Definition lvalid (st : pst) (tg : tagT) (v : Z) : Prop :=
+  retrieved st tg \/ exists d, dbar st tg = Some d /\ (H v = d \/ d = 0).
+
+Definition I3a (g : gst) := forall q dst x, In (q, dst, x) (gsent g) -> m_act x = 2 -> filt (gp g q) FSend (m_j x) (mtag x) = true.
+Definition I3 (g : gst) := forall q d1 x1 d2 x2, In (q, d1, x1) (gsent g) -> In (q, d2, x2) (gsent g) ->
+  m_act x1 = 2 -> m_act x2 = 2 -> mtag x1 = mtag x2 -> m_pay x1 = m_pay x2.
+Definition I4 (g : gst) := forall q dst x, In (q, dst, x) (gsent g) -> m_act x = 2 ->
+  exists m, mtag m = mtag x /\ m_act m = 1 /\ m_pay x = H (m_pay m) /\ (byz (m_j x) = true \/ In (m_j x, q, m) (gsent g)).
+Definition I5 (g : gst) := forall q dst x, In (q, dst, x) (gsent g) -> m_act x = 3 ->
+  exists q', hon q' /\ n - t <= ed (gp g q') (mtag x) (m_pay x).
+Definition I7 (g : gst) := forall q tg d, dbar (gp g q) tg = Some d -> 2 * t + 1 <= rd (gp g q) tg d.
+Definition I8a (g : gst) := forall q tg, In tg (dbuf (gp g q)) -> valid (gp g q) tg.
+Definition I8b (g : gst) := forall q tg v, In (q, tg, v) (glog g) -> lvalid (gp g q) tg v.
+
+Definition INV (g : gst) : Prop :=
+  count_ok ed FEcho 2 g /\ count_ok rd FReady 3 g /\ I3a g /\ I3 g /\ I4 g /\ I5 g /\ I7 g /\ I8a g /\ I8b g.
+
+Lemma mtag_j : forall x y, mtag x = mtag y -> m_j x = m_j y.
+Proof. intros x y E. unfold mtag in E. inversion E. reflexivity. Qed.
+
+Lemma honest_of : forall l, 0 <= l < n -> ~ In l B -> hon l.
+Proof.
+  intros l R NB. unfold honest, is_party. destruct (byz l) eqn:Y; [exfalso; auto|].
+  rewrite andb_true_r. apply andb_true_iff. split; [apply Z.leb_le|apply Z.ltb_lt]; lia.
+Qed.
+
+Section OneStep.
+Variables (g g' : gst) (p : Z) (st' : pst) (out : list (Z * msg)) (r : dres) (offer : option (Z * msg)).
+Hypothesis Hp : hon p.
+Hypothesis Q : qstep (gp g p) st' out r offer.
+Hypothesis CR : forall l m, offer = Some (l, m) -> can_recv n byz g p l m = true.
+Hypothesis Egp : gp g' = updZ (gp g) p st'.
+Hypothesis Esent : gsent g' = gsent g ++ tagged p out.
+Hypothesis Elog : glog g' = glog g ++ log_of p r.
+
+Lemma sent_mono : forall x, In x (gsent g) -> In x (gsent g').
+Proof. intros x I. rewrite Esent. apply in_or_app. auto. Qed.
+
+Lemma sent_new : forall q dst x, In (q, dst, x) (gsent g') -> In (q, dst, x) (gsent g) \/ (q = p /\ In (dst, x) out).
+Proof.
+  intros q dst x I. rewrite Esent in I. apply in_app_or in I. destruct I as [I|I]; auto.
+  right. unfold tagged in I. apply in_map_iff in I. destruct I as ([d0 x0] & E & I). cbn in E. inversion E; subst. auto.
+Qed.
+
+Lemma state_cases : forall q, (q = p /\ gp g' q = st') \/ (q <> p /\ gp g' q = gp g q).
+Proof.
+  intros q. rewrite Egp. destruct (Z.eq_dec q p) as [->|N].
+  - left. rewrite updZ_same. auto.
+  - right. rewrite updZ_other; auto.
+Qed.
+
+Lemma has_msg_mono : forall l q tg a d, has_msg g l q tg a d -> has_msg g' l q tg a d.
+Proof. intros l q tg a d [Y|(m & I & E)]; [left; auto|right; exists m; split; auto using sent_mono]. Qed.
+
+Lemma clist_mono : forall st q k a tg d c, clist g st q k a tg d c -> clist g' st q k a tg d c.
+Proof.
+  intros st q k a tg d c (L & ND & Len & AL). exists L. split; [exact ND|]. split; [exact Len|].
+  intros l I. destruct (AL l I) as (R & F & M). split; [exact R|]. split; [exact F|]. apply has_msg_mono. exact M.
+Qed.
+
+(* the counter after the step, justified by messages that were in the network BEFORE the step *)
+Lemma count_old : forall (cnt : pst -> tagT -> Z -> Z) (k : fkind) (a : Z),
+  count_ok cnt k a g ->
+  (forall tg d, cnt st' tg d = cnt (gp g p) tg d \/
+     exists l m, offer = Some (l, m) /\ tg = mtag m /\ d = m_pay m /\ m_act m = a /\ filt (gp g p) k l tg = false /\
+                 cnt st' tg d = cnt (gp g p) tg d + 1 /\ filt st' k l tg = true) ->
+  forall tg d, clist g st' p k a tg d (cnt st' tg d).
+Proof.
+  intros cnt k a CO C tg d. destruct Q as (Fm & _).
+  destruct (CO p tg d) as (L & ND & Len & AL).
+  destruct (C tg d) as [E|(l & m & Eo & Et & Ed & A & F0 & E & F1)].
+  - exists L. rewrite E. split; [exact ND|]. split; [exact Len|].
+    intros l I. destruct (AL l I) as (R & F & M). split; [exact R|]. split; [apply Fm; exact F|exact M].
+  - exists (l :: L). split; [|split].
+    + constructor; auto. intros I. destruct (AL l I) as (_ & F & _). congruence.
+    + cbn [length]. lia.
+    + intros l0 [<-|I].
+      * destruct (can_recv_spec g p l m (CR l m Eo)) as (R & M). split; auto. split; auto.
+        destruct M as [M|M]; [left; exact M|right]. exists m. auto.
+      * destruct (AL l0 I) as (R & F & M). split; [exact R|]. split; [apply Fm; exact F|exact M].
+Qed.
+
+Lemma count_step : forall (cnt : pst -> tagT -> Z -> Z) (k : fkind) (a : Z),
+  count_ok cnt k a g ->
+  (forall tg d, cnt st' tg d = cnt (gp g p) tg d \/
+     exists l m, offer = Some (l, m) /\ tg = mtag m /\ d = m_pay m /\ m_act m = a /\ filt (gp g p) k l tg = false /\
+                 cnt st' tg d = cnt (gp g p) tg d + 1 /\ filt st' k l tg = true) ->
+  count_ok cnt k a g'.
+Proof.
+  intros cnt k a CO C q tg d. destruct (state_cases q) as [[-> E]|[N E]]; rewrite E.
+  - apply clist_mono. apply count_old; auto.
+  - apply clist_mono. apply CO.
+Qed.
+
+Lemma ed_mono : forall q tg d, ed (gp g q) tg d <= ed (gp g' q) tg d.
+Proof.
+  intros q tg d. destruct (state_cases q) as [[-> E]|[N E]]; rewrite E; [|lia].
+  destruct Q as (_ & C & _). destruct (C tg d) as [X|(? & ? & _ & _ & _ & _ & _ & X & _)]; lia.
+Qed.
+Lemma rd_mono : forall q tg d, rd (gp g q) tg d <= rd (gp g' q) tg d.
+Proof.
+  intros q tg d. destruct (state_cases q) as [[-> E]|[N E]]; rewrite E; [|lia].
+  destruct Q as (_ & _ & C & _). destruct (C tg d) as [X|(? & ? & _ & _ & _ & _ & _ & X & _)]; lia.
+Qed.
+
+Lemma I3a_step : I3a g -> I3a g'.
+Proof.
+  intros IH q dst x I A. destruct Q as (Fm & _ & _ & _ & _ & S & _).
+  apply sent_new in I. destruct I as [I|[-> I]].
+  - destruct (state_cases q) as [[-> E]|[N E]]; rewrite E; [apply Fm|]; eapply IH; eauto.
+  - destruct (state_cases p) as [[_ E]|[N _]]; [|congruence]. rewrite E.
+    destruct (S _ _ I) as [S2 _]. destruct (S2 A) as (l & m & _ & T & _ & J & _ & F & _).
+    rewrite T, (mtag_j _ _ T), J. exact F.
+Qed.
+
+Lemma I3_step : I3a g -> I3 g -> I3 g'.
+Proof.
+  intros IHa IH q d1 x1 d2 x2 I1 I2 A1 A2 T. destruct Q as (_ & _ & _ & _ & _ & S & _).
+  apply sent_new in I1. apply sent_new in I2.
+  destruct I1 as [I1|[-> I1]], I2 as [I2|[E2 I2]].
+  - eapply IH; eauto.
+  - subst q. exfalso. destruct (S _ _ I2) as [S2 _]. destruct (S2 A2) as (l & m & _ & T2 & _ & J & F & _).
+    pose proof (IHa _ _ _ I1 A1) as X. rewrite T, T2, (mtag_j _ _ T), (mtag_j _ _ T2), J in X. congruence.
+  - exfalso. destruct (S _ _ I1) as [S1 _]. destruct (S1 A1) as (l & m & _ & T1 & _ & J & F & _).
+    pose proof (IHa _ _ _ I2 A2) as X. rewrite <- T, T1, <- (mtag_j _ _ T), (mtag_j _ _ T1), J in X. congruence.
+  - destruct (S _ _ I1) as [S1 _]. destruct (S1 A1) as (l & m & Eo & _ & _ & _ & _ & _ & P1).
+    destruct (S _ _ I2) as [S2 _]. destruct (S2 A2) as (l' & m' & Eo' & _ & _ & _ & _ & _ & P2).
+    rewrite Eo in Eo'. inversion Eo'; subst. congruence.
+Qed.
+
+Lemma I4_step : I4 g -> I4 g'.
+Proof.
+  intros IH q dst x I A. destruct Q as (_ & _ & _ & _ & _ & S & _).
+  apply sent_new in I. destruct I as [I|[-> I]].
+  - destruct (IH _ _ _ I A) as (m & T & A1 & P & M). exists m. repeat split; auto.
+    destruct M; [left|right]; auto using sent_mono.
+  - destruct (S _ _ I) as [S2 _]. destruct (S2 A) as (l & m & Eo & T & A1 & J & _ & _ & P).
+    exists m. repeat split; auto. rewrite (mtag_j _ _ T), J.
+    destruct (can_recv_spec g p l m (CR l m Eo)) as (_ & [M|M]); [left|right]; auto using sent_mono.
+Qed.
+
+Lemma I5_step : count_ok rd FReady 3 g -> I5 g -> I5 g'.
+Proof.
+  intros C2 IH q dst x I A.
+  assert (OLD : forall q0 d0 x0, In (q0, d0, x0) (gsent g) -> m_act x0 = 3 ->
+                exists q', hon q' /\ n - t <= ed (gp g' q') (mtag x0) (m_pay x0)).
+  { intros q0 d0 x0 I0 A0. destruct (IH _ _ _ I0 A0) as (q' & Hq & E). exists q'. split; auto.
+    pose proof (ed_mono q' (mtag x0) (m_pay x0)). lia. }
+  apply sent_new in I. destruct I as [I|[-> I]]; [eapply OLD; eauto|].
+  destruct Q as (_ & _ & Cr & _ & _ & S & _).
+  destruct (S _ _ I) as [_ S3]. destruct (S3 A) as [E|E].
+  - exists p. split; auto. destruct (state_cases p) as [[_ X]|[N _]]; [|congruence]. rewrite X. exact E.
+  - destruct (count_old rd FReady 3 C2 Cr (mtag x) (m_pay x)) as (L & ND & Len & AL).
+    destruct (nodup_exceeds_honest B L ND) as (l0 & I0 & NB); [lia|].
+    destruct (AL l0 I0) as (R & _ & [Y|(m' & Im & Tm & Am & Pm)]); [exfalso; auto|].
+    destruct (OLD _ _ _ Im Am) as (q' & Hq & E'). exists q'. split; auto. rewrite <- Tm, <- Pm. exact E'.
+Qed.
+
+Lemma I7_step : I7 g -> I7 g'.
+Proof.
+  intros IH q tg d D. pose proof (rd_mono q tg d) as M.
+  destruct (state_cases q) as [[-> E]|[N E]]; rewrite E in *; [|apply IH; exact D].
+  destruct Q as (_ & _ & _ & Db & _). destruct (Db tg) as [X|(_ & d' & X & Y)].
+  - rewrite X in D. apply IH in D. lia.
+  - rewrite X in D. inversion D; subst. lia.
+Qed.
+
+Lemma I8a_step : I8a g -> I8a g'.
+Proof.
+  intros IH q tg I. destruct (state_cases q) as [[-> E]|[N E]]; rewrite E in *; [|apply IH; exact I].
+  pose proof Q as Q0. destruct Q0 as (_ & _ & _ & _ & _ & _ & _ & Bf).
+  destruct (Bf tg I) as [J|J]; auto. eapply qstep_valid_stable; eauto.
+Qed.
+
+Lemma lvalid_stable : forall tg v, lvalid (gp g p) tg v -> lvalid st' tg v.
+Proof.
+  intros tg v [[l R]|(d & D & X)]; destruct Q as (Fm & _ & _ & Db & _).
+  - left. exists l. apply Fm. exact R.
+  - right. exists d. split; auto. destruct (Db tg) as [E|[E _]]; congruence.
+Qed.
+
+Lemma I8b_step : I8a g -> I8b g -> I8b g'.
+Proof.
+  intros IHa IH q tg v I. rewrite Elog in I. apply in_app_or in I. destruct I as [I|I].
+  - destruct (state_cases q) as [[-> E]|[N E]]; rewrite E; [apply lvalid_stable|]; apply IH; exact I.
+  - destruct r as [|who tg0 v0|]; cbn in I; try contradiction. destruct I as [I|[]]. injection I as <- <- <-.
+    destruct (state_cases p) as [[_ E]|[N _]]; [|congruence]. rewrite E.
+    pose proof Q as Q0. destruct Q0 as (_ & _ & _ & _ & _ & _ & Dl & _).
+    destruct (Dl who tg0 v0 eq_refl) as (M & V).
+    assert (V' : valid st' tg0). { destruct V as [V|V]; auto. eapply qstep_valid_stable; eauto. }
+    destruct V' as [R|(d & D & X)]; [left; exact R|right]. exists d. split; auto. rewrite M in X. exact X.
+Qed.
+
+Lemma INV_onestep : INV g -> INV g'.
+Proof.
+  intros (C1 & C2 & A3a & A3 & A4 & A5 & A7 & A8a & A8b).
+  pose proof Q as Q0. destruct Q0 as (_ & Ce & Cr & _).
+  unfold INV. repeat split.
+  - apply count_step; auto.
+  - apply count_step; auto.
+  - apply I3a_step; auto.
+  - apply I3_step; auto.
+  - apply I4_step; auto.
+  - apply I5_step; auto.
+  - apply I7_step; auto.
+  - apply I8a_step; auto.
+  - apply I8b_step; auto.
+Qed.
+End OneStep.
+
 End Bracha.
